@@ -36,12 +36,21 @@ type vec struct {
 	Hand   hx.B     `json:"hand"`
 	Implen int      `json:"implen"`
 	Ulen   int      `json:"ulen"` // the specification's length of the message packed without compression (0: not given)
+	Hands  []hand   `json:"hands"` // mode "foreign": compressed forms of other encoders (Compress!Recompress), by strategy
+	Sp     [][]int  `json:"sp"`    // mode "spell": <<owner index, style>>: how the harness spells that name (spell)
+	NoWF   bool     `json:"nowf"`  // mode "overlong": the specification says the message is NOT well-formed (WFMsg fails)
+}
+
+type hand struct {
+	S string `json:"s"`
+	B hx.B   `json:"b"`
 }
 
 type event struct {
 	G      string        `json:"g"`
 	V      []int         `json:"v"`
 	Ddd    []int         `json:"ddd"`
+	Sp     [][]int       `json:"sp"`
 	Key    string        `json:"key"`
 	HasMsg bool          `json:"hasmsg"`
 	Msg    *wire.Msg     `json:"msg,omitempty"`
@@ -99,6 +108,59 @@ func dddSpell(s string) string {
 		}
 	}
 	return sb.String()
+}
+
+// spell writes a presentation name (canonical: as wire.PresentName gives it) in another SPELLING of the same labels:
+//
+//	1  every letter 'a' as \097 (dddSpell)
+//	2  every escape sequence in its decimal form: \. -> \046, \\ -> \092, \" -> \034 ... (\DDD stays)
+//	3  every octet of every label as \DDD
+//
+// The dots that separate labels stay.  Whether the real packer reads the spelling as the same labels shows in the
+// uncompressed packing, which Trace_Compress compares with the vector's names.
+func spell(s string, style int) string {
+	if style == 1 {
+		return dddSpell(s)
+	}
+	if style != 2 && style != 3 {
+		return s
+	}
+	var sb strings.Builder
+	for i := 0; i < len(s); i++ {
+		c := s[i]
+		switch {
+		case c == '\\' && i+3 < len(s) && s[i+1] >= '0' && s[i+1] <= '9':
+			sb.WriteString(s[i : i+4])
+			i += 3
+		case c == '\\' && i+1 < len(s):
+			fmt.Fprintf(&sb, "\\%03d", s[i+1])
+			i++
+		case c == '.':
+			sb.WriteByte('.')
+		case style == 3:
+			fmt.Fprintf(&sb, "\\%03d", c)
+		default:
+			sb.WriteByte(c)
+		}
+	}
+	return sb.String()
+}
+
+func respellSp(m *dns.Msg, sp [][]int) {
+	var owners []*string
+	for i := range m.Question {
+		owners = append(owners, &m.Question[i].Name)
+	}
+	for _, sec := range [][]dns.RR{m.Answer, m.Ns, m.Extra} {
+		for _, rr := range sec {
+			owners = append(owners, &rr.Header().Name)
+		}
+	}
+	for _, p := range sp {
+		if len(p) == 2 && p[0] >= 0 && p[0] < len(owners) {
+			*owners[p[0]] = spell(*owners[p[0]], p[1])
+		}
+	}
 }
 
 func respell(m *dns.Msg, idx []int) {
@@ -368,21 +430,69 @@ func typesKey(m *dns.Msg) string {
 }
 
 func observeVec(v *vec, sum *hx.Summary) []event {
-	e := event{G: v.G, V: v.V, Ddd: v.Ddd, HasMsg: true, Msg: &v.Msg, Implen: v.Implen}
+	e := event{G: v.G, V: v.V, Ddd: v.Ddd, Sp: v.Sp, HasMsg: true, Msg: &v.Msg, Implen: v.Implen}
 	if e.Ddd == nil {
 		e.Ddd = []int{}
+	}
+	if e.Sp == nil {
+		e.Sp = [][]int{}
 	}
 	m, err := L.BuildMsg(&v.Msg)
 	if err != nil {
 		hx.Die("vector %s %v: %v", v.G, v.V, err)
 	}
 	respell(m, v.Ddd)
+	respellSp(m, v.Sp)
 	e.Key = typesKey(m)
+	if v.NoWF {
+		unpackable(v, m, sum)
+		return nil
+	}
 	var c interface{} = v
 	if v.Ulen > 8192 { // a large vector is regenerated from the specification when a finding is re-executed
 		c = map[string]interface{}{"g": v.G, "v": v.V, "regen": true}
 	}
 	return packBothU(m, &e, sum, c, v.Ulen)
+}
+
+// unpackable: a message the specification calls ill-formed (no wire form exists: a name beyond 255 octets / 127 labels,
+// a label beyond 63) and that Pack() refuses without compression must be refused with compression too: the statement
+// compares the two packings of "any message", and octets that come out of one of them only are not "exactly the same
+// message".  What the compressed octets are (the independent reader's view) is part of the finding's text.  A message
+// that packs WITHOUT compression against the specification is not a matter of compression (C01 / C03): counted.
+var unpackableStats = map[string]int{}
+
+func unpackable(v *vec, m *dns.Msg, sum *hx.Summary) {
+	pos := "?"
+	if len(v.V) >= 2 {
+		pos = [...]string{"?", "question", "owner", "rdata:NS", "rdata:MX", "rdata:CNAME", "rdata:SRV"}[v.V[1]%7]
+	}
+	var eu, ec error
+	var bc []byte
+	if p := hx.Catch(func() {
+		m.Compress = false
+		_, eu = m.Pack()
+		m.Compress = true
+		bc, ec = m.Pack()
+		m.Compress = false
+	}); p != "" {
+		sum.Mis("compress/panic:"+v.G, "Pack panicked on an ill-formed message: "+p, v)
+		return
+	}
+	switch {
+	case eu == nil:
+		unpackableStats["packs-uncompressed"]++ // not this property's business
+	case ec != nil:
+		unpackableStats["refused-both-ways"]++
+	default:
+		unpackableStats["packs-compressed-only"]++
+		what := "the independent reader reads them"
+		if _, err := walker.Walk(L, bc); err != nil {
+			what = fmt.Sprintf("the independent reader cannot read them: %v", err)
+		}
+		sum.Mis("compress/packs-what-uncompressed-refuses:"+v.G+":"+pos, fmt.Sprintf("the specification gives this message no wire form (WFMsg fails) and Pack() "+
+			"without compression refuses it (%v), but Pack() with Compress = true yields %d octets; %s", eu, len(bc), what), v)
+	}
 }
 
 // chainClass: the longest pointer chain of a part stream (read off the walker's hints), as a class for finding keys.
@@ -468,9 +578,15 @@ func replay(vectors, out string) {
 			}
 		}
 		if len(v.Hand) > 0 {
-			accept(v, &sum)
+			accept(v, v.Hand, "", &sum)
+		}
+		for _, h := range v.Hands {
+			accept(v, h.B, ":"+h.S, &sum)
+			foreignForms++
 		}
 	})
+	sum.Note("foreign_forms_unpacked", foreignForms)
+	sum.Note("ill_formed_messages", unpackableStats)
 	sum.Note("packimpl_deviations", implDev)
 	sum.Note("poison_packings", poisonStats)
 	sum.Note("packbuffer_calls", packBufferTried)
@@ -481,18 +597,24 @@ func replay(vectors, out string) {
 }
 
 // accept: hand-compressed RDATA names must be accepted on input for every type, and read as the pointed-to name.
-func accept(v *vec, sum *hx.Summary) {
+var foreignForms int
+
+func accept(v *vec, hand hx.B, strategy string, sum *hx.Summary) {
 	sum.Evaluations++
 	rrs := v.Msg.RRs()
-	key := L.Mnemonic(rrs[len(rrs)-1].Type)
+	key := L.Mnemonic(rrs[len(rrs)-1].Type) + strategy
+	what := "a message whose RDATA names are compression pointers"
+	if strategy != "" {
+		what = "a compressed form of the message that the specification's judge accepts (foreign encoder, strategy " + strategy[1:] + ": Compress!Recompress)"
+	}
 	u := new(dns.Msg)
 	var err error
-	if p := hx.Catch(func() { err = u.Unpack(v.Hand.Bytes()) }); p != "" {
+	if p := hx.Catch(func() { err = u.Unpack(hand.Bytes()) }); p != "" {
 		sum.Mis("compress/input-panic:"+key, "Unpack panicked on a compressed RDATA name: "+p, v)
 		return
 	}
 	if err != nil {
-		sum.Mis("compress/input-rejected:"+key, fmt.Sprintf("Unpack refuses a message whose RDATA names are compression pointers: %v", err), v)
+		sum.Mis("compress/input-rejected:"+key, fmt.Sprintf("Unpack refuses %s: %v", what, err), v)
 		return
 	}
 	proj, errs := L.ProjectMsg(u, &v.Msg)
@@ -509,7 +631,9 @@ func accept(v *vec, sum *hx.Summary) {
 
 var families = []string{"example.org.", "EXAMPLE.org.", "www.example.org.", "a.b.c.example.org.", "A.b.C.example.org.", "c.example.org.",
 	"esc\\.aped.example.org.", "x\\200y.example.org.", "mail.example.org.", "other.test.", "a.other.test.", ".", "org.", "ORG.",
-	"very-long-label-aaaaaaaaaaaaaaaaaaaaaaaaaaaaaaaaaaaaaaaaaaaa.example.org.", "b.very-long-label-aaaaaaaaaaaaaaaaaaaaaaaaaaaaaaaaaaaaaaaaaaaa.example.org."}
+	"very-long-label-aaaaaaaaaaaaaaaaaaaaaaaaaaaaaaaaaaaaaaaaaaaa.example.org.", "b.very-long-label-aaaaaaaaaaaaaaaaaaaaaaaaaaaaaaaaaaaaaaaaaaaa.example.org.",
+	// other spellings of special octets (decimal escapes of the dot and the backslash) next to their look-alikes
+	"a\\046b.c.example.org.", "x\\092y.example.org.", "xy.example.org."}
 
 func randomMsg(r *rand.Rand, pools [][]dns.RR, big bool) *dns.Msg {
 	m := new(dns.Msg)
@@ -596,7 +720,7 @@ func reexec(in, out string) {
 	hx.ReadNDJSON(in, func(i int, e *event) {
 		sum.Evaluations++
 		if e.HasMsg && e.Msg != nil {
-			v := &vec{G: e.G, V: e.V, Msg: *e.Msg, Ddd: e.Ddd, Implen: e.Implen, Ulen: len(e.BytesU)}
+			v := &vec{G: e.G, V: e.V, Msg: *e.Msg, Ddd: e.Ddd, Sp: e.Sp, Implen: e.Implen, Ulen: len(e.BytesU)}
 			for _, ne := range observeVec(v, &sum) {
 				w.Emit(ne)
 			}
